@@ -127,6 +127,7 @@ def covOf (op : Op) (st st' : St) : List String :=
       ++ (if (volumesOf st s).any (fun v => !(vs.any fun a => a.id == v.id)) then ["COV full.deleted"] else [])
   | .inc s ns ds =>
     ["COV inc"] ++ (if ds.any (fun v => (st.vols s v.key.disk v.id).isNone) then ["COV inc.delete-unregistered"] else [])
+      ++ (if ds.any (fun v => (st.vols s v.key.disk v.id).any fun o => o.remote) then ["COV inc.delete-remote"] else [])
       ++ (if ns.any (fun v => (st.vols s v.key.disk v.id).isSome) then ["COV inc.new-already-registered"] else [])
   | .ecfull s es =>
     ["COV ecfull"] ++ (if ((st.toCore.ecOf s).filter fun e => (actualBits es e.2.1) != some e.2.2).length ≥ 2 then ["COV ecfull.two-changed"] else [])
